@@ -11,7 +11,7 @@ Extraction "model.ml"
   decoders cascade enc8 enc16 enc1252 dec8
   integer_new try_hex try_octal try_binary fixed_parse fixed_of_integer try_from_units
   npu_day npu_hour npu_minute npu_second npu_milli date_literal daytime address string_chars
-  reports_cycle lsp_run cli_run
+  reports_cycle lsp_run lsp_session cli_run
   rule_unique rule_subrange reassemble mkDecl
   rule_symbolic
   rule_const_init rule_const_not_fb rule_global_const rule_task rule_enum_value rule_fb_call rule_stdlib xform_type_init resolve_expr_kinds xform_data_decl rule_struct_unique rule_enum_unique rule_subrange_limits
